@@ -456,7 +456,43 @@ func c08Ownership(w *World, r *Report) {
 		missing := []string{}
 		for _, p := range agg.parts {
 			cs := CallsIn(f, false, "ConfigurationPayload)."+p)
-			if len(cs) != 1 || !errReturned(f, cs[0]) {
+			if len(cs) == 1 && errReturned(f, cs[0]) {
+				continue
+			}
+			// accepted idiom: the parts as a table of method values that is walked, every
+			// element called and its error returned
+			viaTable := false
+			if len(cs) == 0 {
+				var bound ssa.Value
+				var dyn []ssa.CallInstruction
+				Instrs(f, func(in ssa.Instruction) {
+					if mc, ok := in.(*ssa.MakeClosure); ok {
+						if bf, ok := mc.Fn.(*ssa.Function); ok && bf.Name() == p+"$bound" {
+							bound = mc
+						}
+					}
+					if c, ok := in.(*ssa.Call); ok && !c.Call.IsInvoke() && c.Call.StaticCallee() == nil {
+						if _, isB := c.Call.Value.(*ssa.Builtin); !isB {
+							dyn = append(dyn, c)
+						}
+					}
+				})
+				for _, d := range dyn {
+					if bound == nil || !Derives(d.Common().Value, func(x ssa.Value) bool { return x == bound }) {
+						continue
+					}
+					// the walk stops at the first failing step and returns that error
+					for _, alt := range ReturnAlts(f, f.Signature.Results().Len()-1) {
+						if d.Value() == nil || peel(alt.Val) != ssa.Value(d.Value()) {
+							continue
+						}
+						if op, _ := FindRel(relsOfConds(alt.Conds), func(v ssa.Value) bool { return peel(v) == ssa.Value(d.Value()) }, isNilConst); op == "!=" {
+							viaTable = true
+						}
+					}
+				}
+			}
+			if !viaTable {
 				missing = append(missing, p)
 			}
 		}
